@@ -195,12 +195,14 @@ def histories_rule(ctx, run, rule, only=None, classes=None):
             fi = FuncInfo("synthetic.history_" + name.replace("-", "_"), D + "base", ast.parse(HISTORIES[name]).body[0])
             w = _world()
             try:
-                res = [r for r in interp.explore(fi, [ClassRef(q)], dict(w), max_paths=60) if not r["raises"]]
+                allres = interp.explore(fi, [ClassRef(q)], dict(w), max_paths=60)
             except Unsupported as ex:
                 raise AnalysisError(f"history '{name}' on {short}: {ex}")
-            if not res:
-                raise AnalysisError(f"history '{name}' on {short}: every path raises")
+            res = [r for r in allres if not r["raises"]]
             bad = []
+            if not res:
+                # every call of the history is documented use of the API on a freshly created derivative: none of them may fail
+                bad.append("the history ends in an exception on every path: " + "; ".join(sorted({str(getattr(r["raises"], "exc", r["raises"]))[:80] for r in allres}))[:200])
             for r in res:
                 try:
                     bad += _judge(name, r["value"], w)
